@@ -143,3 +143,124 @@ func CompareAndSwapUint64(p *uint64, o, n uint64) bool { return atomic.CompareAn
 func CompareAndSwapUintptr(p *uintptr, o, n uintptr) bool {
 	return atomic.CompareAndSwapUintptr(p, o, n)
 }
+
+// ---- harness-facing API on the real runtime (DESIGN §14.4: real-run cross-check) ----
+// The same harness, built with -tags passthrough against the UNINSTRUMENTED repository, runs its
+// scenarios with real goroutines, real channels and the real clock. Vector clocks do not exist
+// here (Leq is vacuously true); everything else is evaluated by the same oracles.
+
+type VC []uint32
+
+func Leq(a, b VC) bool { return true }
+func Clock() VC        { return nil }
+
+type Verdict string
+
+const (
+	VOK       Verdict = "ok"
+	VDeadlock Verdict = "deadlock"
+	VLivelock Verdict = "livelock"
+	VCapped   Verdict = "capped"
+	VPanic    Verdict = "panic"
+	VHung     Verdict = "hung"
+)
+
+type Event struct {
+	Seq  uint64        `json:"seq"`
+	At   time.Duration `json:"at"`
+	G    string        `json:"g"`
+	Kind string        `json:"kind"`
+	Obj  string        `json:"obj,omitempty"`
+}
+
+type Config struct {
+	Chooser       Chooser
+	MaxSteps      int
+	LoneLimit     int
+	MapBase       string
+	ClockAdvance  bool
+	KeepTrace     bool
+	WallLimit     time.Duration
+	OnSettled     func(g string)
+	OnForeignFire func(seq uint64)
+}
+
+type Stats struct {
+	Steps, Switches, ClockJumps, VoluntaryClock, ForeignFired int
+	MapDecisions, MapNonSorted                                int
+	SelectMulti, MutexContended, ChanSendBlocked              int
+	Settled, TimersFired                                      int
+}
+
+type Sim struct {
+	cfg          Config
+	start        time.Time
+	seq          uint64
+	verdict      Verdict
+	panicMsg     string
+	mu           sync.Mutex
+	Trace        []Event
+	Stats        Stats
+	FirstForeign uint64
+}
+
+var S *Sim
+var harnessMu sync.Mutex
+
+// Lock/Unlock protect the harness' own bookkeeping when its task functions run on real,
+// concurrently executing goroutines.
+func Lock()   { harnessMu.Lock() }
+func Unlock() { harnessMu.Unlock() }
+
+const RealRuntime = true
+
+func Run(cfg Config, mainFn func()) *Sim {
+	if cfg.WallLimit == 0 {
+		cfg.WallLimit = 20 * time.Second
+	}
+	s := &Sim{cfg: cfg, start: time.Now(), verdict: VOK}
+	S = s
+	done := make(chan struct{})
+	go func() {
+		defer close(done)
+		defer func() {
+			if r := recover(); r != nil {
+				s.verdict = VPanic
+				s.panicMsg = "panic on the real runtime"
+			}
+		}()
+		mainFn()
+	}()
+	select {
+	case <-done:
+	case <-time.After(cfg.WallLimit):
+		s.verdict = VHung
+	}
+	return s
+}
+
+func (s *Sim) Verdict() Verdict     { return s.verdict }
+func (s *Sim) PanicMsg() string     { return s.panicMsg }
+func (s *Sim) Hash() uint64         { return 0 }
+func (s *Sim) Now() time.Duration   { return time.Since(s.start) }
+func (s *Sim) Seq() uint64          { return atomic.LoadUint64(&s.seq) }
+func (s *Sim) Steps() int           { return 0 }
+func (s *Sim) Unfinished() []string { return nil }
+
+func Note(kind, obj string) uint64 {
+	s := S
+	q := atomic.AddUint64(&s.seq, 1)
+	if s.cfg.KeepTrace {
+		s.mu.Lock()
+		s.Trace = append(s.Trace, Event{q, time.Since(s.start), "", kind, obj})
+		s.mu.Unlock()
+	}
+	return q
+}
+
+func GoNamed(name string, fn func()) { go fn() }
+func CurName() string                { return "" }
+func CurSpawnSeq() uint64            { return 0 }
+func CurID() int                     { return 0 }
+func SleepCount(name string) int     { return 0 }
+func EnvSleep(d time.Duration)       { time.Sleep(d) }
